@@ -496,6 +496,18 @@ class SymInt:
     def bit_length(self):
         return ctx().concretize(self).bit_length()
 
+    def to_bytes(self, length=1, byteorder="big", *, signed=False):
+        """int.to_bytes for 1-, 2- and 4-byte widths through the struct model (OverflowError like CPython)."""
+        from .loader import STRUCT_SHIM
+        import struct as _st
+        code = {1: "b", 2: "h", 4: "i"}.get(length)
+        if code is None or byteorder not in ("big", "little"):
+            raise Inconclusive(f"int.to_bytes(length={length!r}, byteorder={byteorder!r}) on a symbolic int")
+        try:
+            return STRUCT_SHIM.pack((">" if byteorder == "big" else "<") + (code if signed else code.upper()), self)
+        except _st.error as e:
+            raise OverflowError(str(e))
+
 
 # ----------------------------------------------------------------------------
 # SymRatio: the double nearest n/c for a symbolic integer n and a positive constant c,
